@@ -600,8 +600,39 @@ def _whole_line_ownership_rule(ctx, res) -> None:
         # is then used: the comparison may be one test, several, or the call of a helper)
         consult = [t.id for t in cfg.nodes if t.kind in ("test", "cond") and t.ast is not None and compares_with_neighbour(t.ast)]
         ok = bool(consult) and nd.id not in cfg.reachable(cfg.entry.id, avoid_nodes=consult, avoid_edges=infeasible)
+        # an import can span lines: the statement that FOLLOWS it shares its LAST line, so the comparison has to read the
+        # import's own `end_lineno` (and not only whether a neighbour covers its first line)
+        own_end = False
+        if ok:
+            texts = [node]  # the whole function (helpers read in place) and what it still calls
+            for t in cfg.nodes:
+                if t.ast is not None:
+                    for c in ast.walk(t.ast):
+                        if isinstance(c, ast.Call) and (is_self_attr(c.func) or isinstance(c.func, ast.Name)):
+                            m = idx.find_method(cls.qualname, c.func.attr) if is_self_attr(c.func) and cls is not None else \
+                                idx.functions.get(f"{f.unit.modname}.{c.func.id}") if isinstance(c.func, ast.Name) else None
+                            if m is not None:
+                                texts.append(m.node)
+            own = {x.target.id for x in walk_local(node) if isinstance(x, ast.For) and isinstance(x.target, ast.Name)}
+            own |= {e.id for x in walk_local(node) if isinstance(x, ast.For) and isinstance(x.target, ast.Tuple) for e in x.target.elts[-1:] if isinstance(e, ast.Name)}
+            for tt in texts + [node]:  # (the helper's body may have been read into the function)
+                for a_ in ast.walk(tt):
+                    if isinstance(a_, ast.Assign) and len(a_.targets) == 1 and isinstance(a_.targets[0], ast.Name) and isinstance(a_.value, ast.Subscript) \
+                            and isinstance(a_.value.slice, ast.Name):
+                        own.add(a_.targets[0].id)
+            for tt in texts:
+                for a_ in ast.walk(tt):
+                    if isinstance(a_, ast.Attribute) and a_.attr == "end_lineno":
+                        v = a_.value
+                        if (isinstance(v, ast.Name) and v.id in own) or (isinstance(v, ast.Subscript) and isinstance(v.slice, ast.Name)):
+                            own_end = True
+            if not own_end:
+                ok = False
         res.add("R07.17", f"find_import_statements|import-alone-on-its-line#{n}", ok, f"{f.unit.rel}:{nd.lineno}",
                 "an import is registered as whole lines only after its lines were compared with the neighbouring statements'" if ok else
+                ("the comparison with the neighbouring statements never reads the import's own `end_lineno`: it asks whether a neighbour covers the import's FIRST line; for "
+                 "`from helpers import (alpha,\\n    beta); LIMIT = alpha() + 1` the following statement shares the LAST line, the import is managed as whole lines, and "
+                 "rewriting it deletes the assignment") if consult and not own_end and nd.id not in cfg.reachable(cfg.entry.id, avoid_nodes=consult, avoid_edges=infeasible) else
                 f"`{ast.unparse(regs[0])[:60]}` registers the import with the whole logical line as its text, and nothing on the way compares the node's lines with the "
                 "neighbouring statements': for `import os, sys; sys.stdout.write(...)` the call belongs to the recorded text and is deleted, duplicated or moved "
                 "with the import when imports are organised", function=f.qualname)
